@@ -51,7 +51,7 @@ def list_units(db, prop=None):
     """[(kind, name, variant)] for everything tagged with `prop` (or all)"""
     units = []
     for q, cd in sorted(db.contracts.items()):
-        if cd.options.get("trusted"):
+        if cd.options.get("trusted") or cd.options.get("inline"):
             continue
         if prop is None or prop in cd.options.get("props", []):
             for v in variants_of(cd):
